@@ -135,3 +135,11 @@ Proof.
   unfold replace at 2. rewrite (back_sl s Hg) by lia.
   unfold replace. apply (back_st s Hg). lia.
 Qed.
+
+(* hence distinct (lower-cased) names never share a file name *)
+Lemma filename_injective_lemma :
+  forall n m, good (lower n) = true -> good (lower m) = true ->
+    transform_basis_name n = transform_basis_name m -> lower n = lower m.
+Proof.
+  intros n m Hn Hm H. rewrite <- (name_roundtrip_lemma n Hn), <- (name_roundtrip_lemma m Hm), H. reflexivity.
+Qed.
